@@ -824,9 +824,9 @@ def normList (vs : List Tok) : List Tok := (normToks [] vs).filter fun t => t.tt
 
 def autoTok : Tok := .mk .ident "auto".toList []
 
-/-- (width, height): a missing height is `auto` -/
+/-- (width, height): a missing height is `auto` (tokens compared as they are: `verdict` normalises first) -/
 def bgSize (layer : List Tok) : Option (Tok × Tok) :=
-  match (normList layer).map (fun t => if t.tt == .ident then Tok.mk .ident (lower t.data) t.args else t) with
+  match layer.map (fun t => if t.tt == .ident then Tok.mk .ident (lower t.data) [] else t) with
   | [a] => some (a, autoTok)
   | [a, b] => some (a, b)
   | _ => none
@@ -860,7 +860,7 @@ def zeroTok : Tok := .mk .number ['0'] []
 
 /-- (lengths padded to four, the other tokens in order) -/
 def shadow (layer : List Tok) : Option (List Tok × List Tok) :=
-  let n := normList layer
+  let n := layer
   match n with
   | [_] => none
   | _ =>
@@ -904,11 +904,11 @@ def slotInitial (prop : List Char) (s : Slot) : Tok :=
   | .color => if prop == "outline".toList then .mk .ident "invert".toList [] else .mk .ident "currentcolor".toList []
   | .line => .mk .ident "none".toList []
 
-def lowerIdent (t : Tok) : Tok := if t.tt == .ident then .mk .ident (lower t.data) t.args else t
+def lowerIdent (t : Tok) : Tok := if t.tt == .ident then .mk .ident (lower t.data) [] else t
 
 /-- value of component `s`: the tokens given for it (normal form, keywords lower-cased), or its initial value -/
 def slotVal (prop : List Char) (vs : List Tok) (s : Slot) : List Tok :=
-  match ((normList vs).map lowerIdent).filter (fun t => slotOf prop t == s && t != slotInitial prop s) with
+  match (vs.map lowerIdent).filter (fun t => slotOf prop t == s && t != slotInitial prop s) with
   | [] => [slotInitial prop s]
   | l => l
 
@@ -985,13 +985,13 @@ def verdict (prop : List Char) (a b : List Tok) : Nat :=
     | some _, none => 0
     | none, _ => 2
   else if prop == "background-position".toList then layersCmp position a b
-  else if prop == "background-size".toList then layersCmp bgSize a b
+  else if prop == "background-size".toList then layersCmp bgSize na nb
   else if prop == "background-repeat".toList then layersCmp bgRepeat a b
   else if prop == "box-shadow".toList then
     -- `none` (= the initial value) is only valid as the whole value
     match a, b with
     | [x], [y] => if isKw x "none" || isKw x "initial" then boolV (isKw y "none" || isKw y "initial") else 2
-    | _, _ => layersCmp shadow a b
+    | _, _ => layersCmp shadow na nb
   else if prop == "font".toList || prop == "background".toList then 2   -- shorthands without a denotation here
   else if prop == "flex".toList then cmpDen (flexTriple a) (flexTriple b)
   else if prop == "flex-basis".toList then
@@ -1004,7 +1004,7 @@ def verdict (prop : List Char) (a b : List Tok) : Nat :=
   else if prop == "flex-shrink".toList then
     boolV (normList (a.map fun t => if isKw t "initial" then Tok.mk .number ['1'] [] else t) ==
            normList (b.map fun t => if isKw t "initial" then Tok.mk .number ['1'] [] else t))
-  else if lineProps.contains prop then boolV (lineShorthand prop a == lineShorthand prop b)
+  else if lineProps.contains prop then boolV (lineShorthand prop na == lineShorthand prop nb)
   else 0
 
 def holds (prop : List Char) (a b : List Tok) : Bool := verdict prop a b == 1
